@@ -292,6 +292,15 @@ func runC12(c *fw.Ctx) {
 						if kind == "ce" && k.Rng.Intn(3) == 0 {
 							ceStructuredRows(k, t, present)
 						}
+						if kind == "bce" && len(t.Data) >= 4 && k.Rng.Intn(4) == 0 {
+							// a 0, a 1 and soft labels pairing up to whole numbers (minimum 0, maximum 1, integer sum - yet not hard labels)
+							t.Data[0], t.Data[1] = 0, 1
+							for i := 2; i+1 < len(t.Data); i += 2 {
+								a := []float64{0.5, 0.25, 0.125, 0.75}[k.Rng.Intn(4)]
+								t.Data[i], t.Data[i+1] = a, 1-a
+							}
+							present["t:paired-soft"] = true
+						}
 						k.Case = lossCase{Loss: kind, Pred: p, Target: t}
 						k.Key("%s/%d/%d/%v", kind, b, cl, present)
 						k.Count("cases_"+kind, 1)
